@@ -127,6 +127,10 @@ def check_after_build(found, count, case, model, truth, sim, db, snap, *, prefix
         sig = "orphan-output-left"
         if in_graph and row[0] in bad and closed:
             sig = "detached-cycle-survives"
+        elif in_graph and row[4] and row[0] not in bad:
+            # kept because it is an input of a DETACHED step that is itself kept because another
+            # of its products is still an input of an attached step: no active step uses this file
+            sig = "orphan-held-indirectly-through-detached-step"
         elif truth.written_as.get(path) == "vol" and truth.ever_output.get(path) == "out":
             # written while it was a volatile output, then re-declared as a regular output of a step
             # that did not run again: the row went VOLATILE -> PLANNED and nothing remembers the file
@@ -151,6 +155,10 @@ def check_after_build(found, count, case, model, truth, sim, db, snap, *, prefix
     for step in model.steps:
         if step.workdir != ".":
             keep.add(step.workdir)
+    for row in db.rows:
+        # a step node that is still in the graph (attached, or detached but held) keeps its directory
+        if row[1] == "step" and "  # wd=" in row[2]:
+            keep.add(row[2].split("  # wd=", 1)[1].rstrip("/"))
     for step in needed:
         for p in step.outputs():
             keep.add(os.path.dirname(p))
@@ -347,6 +355,59 @@ def rerole_scenario():
     return found, stats, summary
 
 
+def indirect_scenario():
+    """An orphan that nothing active uses, held through a detached step: v1 `A` builds out/a.txt,
+    `B` (inp out/a.txt) amends the output out/b.extra, optional `C` has out/b.extra as input.  v2
+    renames A's output and replaces `B` by `B2` (no amended output).  The old `B` stays (its product
+    out/b.extra is an input of the attached `C`), so out/a.txt, an input of the detached `B`, stays
+    on disk and in the graph for ever although no active step uses it."""
+    from simdirector import A, FifoSchedule, Project, SimDirector
+
+    def plan(v):
+        acts = [A.static("src/a.txt")]
+        if v == 1:
+            acts += [A.step("A", inp=["src/a.txt"], out=["out/a.txt"]),
+                     A.step("B", inp=["out/a.txt"], out=["out/b.txt"]),
+                     A.step("C", inp=["out/b.extra"], out=["out/c.txt"], optional=True)]
+        else:
+            acts += [A.step("A", inp=["src/a.txt"], out=["out/a2.txt"]),
+                     A.step("B2", inp=["out/a2.txt"], out=["out/b.txt"]),
+                     A.step("C", inp=["out/b.extra"], out=["out/c.txt"], optional=True)]
+        return acts
+
+    found: list[Finding] = []
+    stats: dict[str, int] = {}
+
+    def count(key, n=1):
+        stats[key] = stats.get(key, 0) + n
+
+    m1 = ck.CModel(static={"src/a.txt": "A1\n"},
+                   steps=[ck.CStep(name="A", inp=["src/a.txt"], out=["out/a.txt"]),
+                          ck.CStep(name="B", inp=["out/a.txt"], out=["out/b.txt"], amend_out=["out/b.extra"]),
+                          ck.CStep(name="C", inp=["out/b.extra"], out=["out/c.txt"], optional=True)])
+    m2 = ck.CModel(static={"src/a.txt": "A1\n"},
+                   steps=[ck.CStep(name="A", inp=["src/a.txt"], out=["out/a2.txt"]),
+                          ck.CStep(name="B2", inp=["out/a2.txt"], out=["out/b.txt"]),
+                          ck.CStep(name="C", inp=["out/b.extra"], out=["out/c.txt"], optional=True)])
+    project = Project(scripts={"./plan.py": plan(1),
+                               "B": [A.read_declared(), A.amend(out=["out/b.extra"]), A.write_declared()]},
+                      files={"src/a.txt": "A1\n"})
+    truth = ck.Truth()
+    summary = []
+    with SimDirector(project, seed=1) as sim:
+        for i, (v, model) in enumerate([(1, m1), (2, m2), (2, m2)]):
+            sim.set_script("./plan.py", plan(v))
+            truth.declare(model)
+            res = sim.build(njob=1, schedule=FifoSchedule())
+            truth.note_build(res.runs, (), model)
+            summary.append([i + 1, res.status, str(res.returncode), res.commands, res.tags("REMOVE")])
+            if res.status != "done" or res.returncode.value != 0:
+                return found, stats, summary
+        case = {"scenario": "indirect", "builds": summary, "reproduce": "harness/props/c07.py: indirect_scenario()"}
+        check_after_build(found, count, case, m2, truth, sim, ck.read_db_of(sim), ck.snapshot(sim.root))
+    return found, stats, summary
+
+
 def f6_scenario(seed: int = 0):
     """Finding F6.  A step is dropped; the director is killed right after the transaction of
     `delete_detached` (the node is gone from the database) and before `remove_deletable_files`
@@ -453,6 +514,10 @@ async def search(ctx):
     for f in found:
         ctx.finding(f)
     ctx.stats.count("scenario-rerole")
+    found, stats, summary = await asyncio.to_thread(indirect_scenario)
+    for f in found:
+        ctx.finding(f)
+    ctx.stats.count("scenario-indirect")
 
 
 async def replay(ctx, detail):
@@ -464,6 +529,8 @@ async def replay(ctx, detail):
         found, *_ = await asyncio.to_thread(f6_scenario, 0)
     elif d.get("scenario") == "rerole":
         found, *_ = await asyncio.to_thread(rerole_scenario)
+    elif d.get("scenario") == "indirect":
+        found, *_ = await asyncio.to_thread(indirect_scenario)
     elif d.get("seed_key"):
         found, *_ = await asyncio.to_thread(run_case, tuple(d["seed_key"]), ctx.tier)
     else:
